@@ -164,7 +164,13 @@ def gen_branch_replace(g: Gen, c: Contract):
     return {'self': b, 'jump_targets': tuple(new)}
 
 
-GENERATORS = {'graph_and_subset': gen_graph_and_subset, 'insert': gen_insert, 'branch_replace': gen_branch_replace}
+def gen_graph_and_pair(g: Gen, c: Contract):
+    scfg = g.scfg()
+    keys = list(scfg.graph)
+    return {'self': scfg, 'begin': g.rng.choice(keys) if g.rng.random() < 0.9 else 'zz', 'end': g.rng.choice(keys + UNIVERSE)}
+
+
+GENERATORS = {'graph_and_pair': gen_graph_and_pair, 'graph_and_subset': gen_graph_and_subset, 'insert': gen_insert, 'branch_replace': gen_branch_replace}
 
 
 def gen_args(g: Gen, c: Contract):
